@@ -293,6 +293,8 @@ def _pairing(run, g, loop, consts):
     WANT = {"gaussian": ({"dG[0][p]", "dG[0][q]"}, {"dW[p]", "dW[q]"}, "calculate_spherical_triangle_jacobian"),
             "triangular": ({"dG[p][0]", "dG[p][1]"}, {"dW[p]"}, "calculate_spherical_triangle_jacobian_barycentric")}
     sites = []
+    partial = {}      # accumulator name -> inner accumulation sites
+    unreset = []      # (statement, accumulator) added to area without being zeroed inside the triangle loop
 
     def rule_of(test, depth=0):
         """(rule, True) when the test is  quadrature_rule == "<rule>"  (possibly through a local flag), negations flipped; None otherwise"""
@@ -324,7 +326,19 @@ def _pairing(run, g, loop, consts):
                     walk(st.body, loops, rules & sel, dict(env))
                     walk(st.orelse, loops, rules - sel, dict(env))
             elif isinstance(st, ast.AugAssign) and isinstance(st.target, ast.Name) and st.target.id == "area":
-                sites.append((st, list(loops), set(rules), dict(env)))
+                # two-level accumulation  acc += w * J  ...  area += acc : the inner sums count as the sites, provided acc starts from zero for every sub-triangle
+                v = st.value
+                if isinstance(v, ast.Name) and v.id in partial:
+                    inner = partial[v.id]
+                    reset = [s_ for s_ in iter_stmts(loop.body) if isinstance(s_, ast.Assign) and len(s_.targets) == 1 and norm(s_.targets[0]) == v.id and norm(s_.value) in ("0", "0.0") and s_.lineno < inner[0][0].lineno]
+                    if not reset:
+                        unreset.append((st, v.id))
+                    for ist, iloops, irules, ienv in inner:
+                        sites.append((ist, iloops, set(irules) & set(rules), ienv))
+                else:
+                    sites.append((st, list(loops), set(rules), dict(env)))
+            elif isinstance(st, ast.AugAssign) and isinstance(st.target, ast.Name) and isinstance(st.op, ast.Add) and st.target.id != "jacobian":
+                partial.setdefault(st.target.id, []).append((st, list(loops), set(rules), dict(env)))
 
     walk(loop.body, [], set(RULES), {})
 
@@ -339,6 +353,9 @@ def _pairing(run, g, loop, consts):
             return factors(e.left) + factors(e.right)
         return [e]
 
+    for st_, acc in unreset:
+        run.violation("IDX/quadrature-pairing", f"{g.key}:partial-sum[{acc}]", where(g, st_), f"area += {acc}: the partial sum {acc} is not reset to zero for each sub-triangle, so every sub-triangle adds the "
+                      "running total of all previous ones as well (faces with more than three corners get too large an area)")
     for rule_name in RULES:
         cc = f"{g.key}:pairing[{rule_name}]"
         mine = [s_ for s_ in sites if rule_name in s_[2]]
